@@ -959,6 +959,9 @@ def build_reference(sources):
         fns['__params__'] = dict((qual, [x.arg for x in fn.args.args]) for qual, fn in outer_functions(tree))
         fns['__globals__'] = sorted(set(t.id for st in tree.body if isinstance(st, (ast.Assign, ast.AugAssign, ast.AnnAssign))
                                         for t in ast.walk(st) if isinstance(t, ast.Name) and isinstance(t.ctx, ast.Store)))
+        fns['__classattrs__'] = sorted(set('%s.%s' % (c.name, t.id) for c in ast.walk(tree) if isinstance(c, ast.ClassDef) for st in c.body
+                                           if isinstance(st, (ast.Assign, ast.AnnAssign)) for t in ast.walk(st)
+                                           if isinstance(t, ast.Name) and isinstance(t.ctx, ast.Store)))
         out[rel] = fns
     return out
 
